@@ -1131,7 +1131,8 @@ def sumtensor_cases(rng, tier):
     subset for ttv, every mode for mttkrp."""
     out = []
     C = "sumtensor"
-    configs = [([2, 3, 4], "TSKU"), ([3, 2], "TSKU"), ([3, 2], "K"), ([2, 3], "ST"), ([3, 1, 2], "VTK"), ([2, 2], "TT")]
+    configs = [([2, 3, 4], "TSKU"), ([3, 2], "TSKU"), ([3, 2], "K"), ([2, 3], "ST"), ([3, 1, 2], "VTK"), ([2, 2], "TT"),
+               ([2, 3], "T"), ([1, 3], "U")]
     if tier == "thorough":
         configs += [([2, 3, 2], "UVSKT"), ([4], "KT"), ([2, 1, 2], "S"), ([3, 2], "VU"), ([2, 2, 2], "KKT")]
 
@@ -1331,9 +1332,13 @@ def sptenmat_cases(rng, tier):
                 if so == "dup" and rng.random() < 0.5:
                     vals[-1] = -vals[0]  # the duplicates cancel: the entry disappears
                 for copy in (True, False):
-                    out.append(case(C, "__init__", f"{lay}/{so}/copy={copy}", None,
-                                    [rows(pk), arr([len(pk), 1], vals, "f"), iarr(rd), iarr(cd), py(shape)],
-                                    {"copy": py(copy)}, M(C, "__init__", copy=copy), "ctor"))
+                    for dt, slay in (("f", "C"), ("i", "F"), ("c", "C"), ("b", "F")):
+                        if dt != "f" and so != "sorted":
+                            continue
+                        vv = [1] * len(vals) if dt == "b" else vals
+                        out.append(case(C, "__init__", f"{lay}/{so}/{dt}/copy={copy}", None,
+                                        [rows(pk, "i", slay), arr([len(pk), 1], vv, dt), iarr(rd), iarr(cd), py(shape)],
+                                        {"copy": py(copy)}, M(C, "__init__", copy=copy), "ctor"))
             for copy in (True, False):
                 out.append(case(C, "__init__", f"{lay}/empty-arrays/copy={copy}", None,
                                 [arr([0, 2], [], "i", "C"), arr([0, 1], [], "f"), iarr(rd), iarr(cd), py(shape)],
@@ -1876,6 +1881,96 @@ class NumpyPrims(Family):
         return out
 
 
+class NumpyIdioms(Family):
+    """The NumPy idioms the step-level entries are written with, on arrays of every layout, dtype and
+    shape (1-row / 1-column / all-singleton included): the model's program for the idiom against
+    NumPy's result – shape, strides, contiguity flags and whether it shares memory with the source."""
+    name = "numpy_idioms"
+    theorems = ("C05_asF_view_or_copy", "C05_fresh_tenmat_ctranspose", "C05_ctranspose_needs_copy_example")
+
+    IDIOMS = ["copyC", "tmoCopy", "tmoNoCopy", "conjT", "astype", "expand_dims", "matmulF", "fancy", "conjT_tmo"]
+
+    def gen(self, rng, tier):
+        out = []
+        shapes = [[1, 3], [3, 1], [1, 1], [2, 3], [3, 2], [4], [1], [2, 1, 3], [1, 2, 1], [2, 3, 2]]
+        if tier == "thorough":
+            shapes += [gen.shape(rng, 1, 4, 4) for _ in range(40)]
+        for shape in shapes:
+            for lay in ("F", "C", "S"):
+                for dt in ("f", "i", "b", "c"):
+                    for idiom in self.IDIOMS:
+                        if idiom == "matmulF" and (len(shape) != 2 or dt == "b"):
+                            continue
+                        out.append({"shape": shape, "layout": lay, "dtype": dt, "idiom": idiom})
+        return out
+
+    @staticmethod
+    def _run(c, a):
+        """(NumPy result, model program) of an idiom applied to the array a."""
+        idiom = c["idiom"]
+        cplx = c["dtype"] == "c"
+        sh = list(a.shape)
+        if idiom == "copyC":
+            return a.copy(), [["tr", 0], ["copy", 1], ["tr", 2]]
+        if idiom == "tmoCopy":
+            return ttb.pyttb_utils.to_memory_order(a, "F", copy=True), [["tr", 0], ["copy", 1], ["tr", 2], ["asF", 3]]
+        if idiom == "tmoNoCopy":
+            return ttb.pyttb_utils.to_memory_order(a, "F"), [["asF", 0]]
+        if idiom == "conjT":
+            return a.conj().T, [["fresh", sh] if cplx else ["alias", 0], ["tr", 1]]
+        if idiom == "conjT_tmo":  # what ctranspose would hand out without its explicit copy
+            return ttb.pyttb_utils.to_memory_order(a.conj().T, "F"), [["fresh", sh] if cplx else ["alias", 0], ["tr", 1], ["asF", 2]]
+        if idiom == "astype":
+            return a.astype(np.float64 if not cplx else np.complex128), [["copy", 0]]
+        if idiom == "expand_dims":
+            return np.expand_dims(a, axis=1), [["newaxis", 0, 1]]
+        if idiom == "matmulF":
+            return np.matmul(a, a.T, order="F"), [["fresh", [sh[0], sh[0]]]]
+        if idiom == "fancy":
+            idx = np.arange(a.shape[0])[::-1].copy()
+            return a[idx], [["fresh", sh]]
+        raise ValueError(idiom)
+
+    def evaluate(self, cases):
+        impls, reqs = [], []
+        for c in cases:
+            n = gen.numel(c["shape"])
+            vals = [i % 2 for i in range(n)] if c["dtype"] == "b" else list(range(1, n + 1))
+            base = build(arr(c["shape"], vals, c["dtype"], c["layout"]))
+            with warnings.catch_warnings():
+                warnings.simplefilter("ignore")
+                res, prog = self._run(c, base)
+            impls.append((base, res))
+            reqs.append({"op": "c05_prim", "operands": [descr(base)], "prog": prog})
+        replies = drive(reqs)
+        out = []
+        for c, (base, a), rep in zip(cases, impls, replies):
+            m = rep["regs"][-1]
+            tags = [f"idiom:{c['idiom']}", f"layout:{c['layout']}", f"dtype:{c['dtype']}"]
+            bad = None
+            sh = bool(a.size and np.shares_memory(a, base))
+            if list(a.shape) != m["shape"]:
+                bad = f"shape {list(a.shape)} vs model {m['shape']}"
+            elif sh != (m["shares"] == [0]):
+                bad = f"NumPy {'shares' if sh else 'copies'}, model says {m['shares']}"
+            elif c["idiom"] in ("fancy", "astype") or (c["dtype"] == "c" and c["idiom"] in ("conjT", "conjT_tmo")):
+                pass  # a computed array (it keeps the source's layout; the model gives it F order): only freshness matters
+            elif a.size and (bool(a.flags.f_contiguous) != m["isF"] or bool(a.flags.c_contiguous) != m["isC"]):
+                bad = f"contiguity F={a.flags.f_contiguous} C={a.flags.c_contiguous} vs model {m['isF']}/{m['isC']}"
+            elif a.size:
+                d = descr(a)
+                for ext, s1, s2 in zip(d["shape"], d["strides"], m["strides"]):
+                    if ext > 1 and s1 != s2:
+                        bad = f"strides {d['strides']} vs model {m['strides']}"
+            tags.append(f"{c['idiom']}:{'view' if sh else 'fresh'}")
+            if bad:
+                out.append(Verdict("corr", f"NumPy differs from the model's idiom {c['idiom']} on {c['shape']}/{c['layout']}/"
+                                           f"{c['dtype']}: " + bad, None, rep, None, tags))
+            else:
+                out.append(Verdict("ok", "", None, rep, None, tags, True))
+        return out
+
+
 OPS = [OpsFamily("ops_tensor", tensor_cases), OpsFamily("ops_sptensor", sptensor_cases),
        OpsFamily("ops_ktensor", ktensor_cases), OpsFamily("ops_ttensor", ttensor_cases),
        OpsFamily("ops_sumtensor", sumtensor_cases), OpsFamily("ops_tenmat", tenmat_cases),
@@ -1884,4 +1979,4 @@ OPS = [OpsFamily("ops_tensor", tensor_cases), OpsFamily("ops_sptensor", sptensor
 
 
 def families():
-    return OPS + [NumpyPrims(), Inventory()]
+    return OPS + [NumpyPrims(), NumpyIdioms(), Inventory()]
